@@ -211,6 +211,9 @@ def _one_pass(fn, recorded: Dict[str, list], suspects: Set[str] = frozenset(), l
             continue
         if _draws(value) and len(reads) != 1:
             continue
+        # an object constructed once and read several times stays one object (rules count the constructions)
+        if len(reads) != 1 and any(isinstance(n, ast.Call) and ast.unparse(n.func).split(".")[-1][:1].isupper() for n in ast.walk(value)):
+            continue
         if isinstance(value, (ast.Yield, ast.YieldFrom, ast.Await)):
             continue
         if any(_captured(s, name, free) for s in span):
